@@ -450,6 +450,18 @@ def c059(ctx):
                     if negs % 2:
                         differ = not differ
                     differ_edges.add((b.idx, "sw:1" if differ else "sw:0"))
+    # the entry methods reach a cut through get_builder(key) only: any other function of the multi-builder that seals the current output
+    # (split_hint is one: its one outside caller fires in front of the first version of a key) is not called on behalf of an entry
+    cutters = {g.skey for g in ctx.prog.fns.values() if g.crate == "sst" and g.skey.startswith("sst::SstMultiBuilder::") and
+               P.call_points(g, r"sst::SstBuilder as sst::Builder>::seal$")}
+    for m in ("put", "del"):
+        e = ctx.fn(R, "<sst::SstMultiBuilder as sst::Builder>::" + m)
+        if not e:
+            continue
+        bad = [P.term_pt(e, b.idx) for b, t in e.calls() if (callee_skey(t) or "") in cutters and not (callee_skey(t) or "").endswith("::get_builder")]
+        ctx.check(R, e, "entry-cuts-through-get_builder-only", not bad, "%s reaches a cut only through get_builder(key)" % m,
+                  "SstMultiBuilder::%s calls a function that seals the current output without comparing the incoming key with the builder's last key: "
+                  "an output can be cut between two versions of one key" % m, pt=bad[0] if bad else None)
     for p_ in seals:
         q = P.reach(f, P.ENTRY, [p_], avoid_edges=full_edges | differ_edges)
         ctx.check(R, f, "cut-between-keys", q is None and bool(full_edges | differ_edges),
